@@ -296,7 +296,7 @@ def execute(prop, desc, rng=None):
     """returns (violation|None, outcome-summary)"""
     out = simulate(desc, rng)
     summ = {"steps": out.sched.steps, "sim_s": out.sched.now, "decisions": list(out.sched.decisions),
-            "line_decisions": list(out.sched.ldecisions), "line_yields": out.sched.line_yields, "line_stalls": out.sched.line_stalls,
+            "line_decisions": dict(out.sched.ldecisions), "line_yields": out.sched.line_yields, "line_stalls": out.sched.line_stalls,
             "stats": dict(out.sched.stats), "ledger": list(out.run["ledger"]), "fired": list(out.run["fired"]),
             "tasks": dict(out.tasks), "exc": type(out.exc).__name__ if out.exc is not None else None,
             "hang": out.hang, "trace_digest": digest_obj([(a, b) for _, a, b in out.sched.trace]),
@@ -362,10 +362,19 @@ def run_one(prop, rng, idx):
     return res
 
 
-def minimise(prop, desc, inv, budget=300):
+def minimise(prop, desc, inv, budget=2500, wall=150.0):
+    """Shrink the run description while the same violation class persists: drop items,
+    workers, sketch types, faults and delays; then delta-debug the schedule (line
+    pre-emptions/stalls first, then the scheduler's choices, towards 'always pick the
+    first runnable task')."""
+    from .core import ddmin
+
     tests = [0]
+    t0 = time.time()
 
     def fails(d):
+        if tests[0] >= budget or time.time() - t0 > wall:
+            return False
         tests[0] += 1
         v, _ = execute(prop, d)
         return v is not None and v.prop == prop and v.inv == inv
@@ -373,68 +382,99 @@ def minimise(prop, desc, inv, budget=300):
     if not fails(desc):
         return desc, False
     cur = desc
-    changed = True
-    while changed and tests[0] < budget:
-        changed = False
-        # drop items
-        for j in range(len(cur["items"])):
-            d = copy.deepcopy(cur)
-            it = d["items"].pop(j)
-            d["plan"].pop(str(it[0]), None)
-            d["delays"].pop(str(it[0]), None)
-            if fails(d):
-                cur, changed = d, True
-                break
-        if changed:
-            continue
-        cands = []
-        if cur["n_workers"] > 1:
-            d = copy.deepcopy(cur)
-            d["n_workers"] -= 1
-            cands.append(d)
-        for name in ("cms_args", "hh_args", "hll_args"):
-            if cur.get(name) and sum(1 for n in ("cms_args", "hh_args", "hll_args") if cur.get(n)) > 1:
+
+    def structural(cur):
+        changed = True
+        while changed:
+            changed = False
+            for j in range(len(cur["items"])):
                 d = copy.deepcopy(cur)
-                d.pop(name)
+                it = d["items"].pop(j)
+                d["plan"].pop(str(it[0]), None)
+                d["delays"].pop(str(it[0]), None)
+                if fails(d):
+                    cur, changed = d, True
+                    break
+            if changed:
+                continue
+            cands = []
+            if cur["n_workers"] > 1:
+                d = copy.deepcopy(cur)
+                d["n_workers"] -= 1
                 cands.append(d)
-        for k in list(cur.get("plan", {})):
-            d = copy.deepcopy(cur)
-            d["plan"].pop(k)
-            cands.append(d)
-        if cur.get("delays"):
-            d = copy.deepcopy(cur)
-            d["delays"] = {}
-            cands.append(d)
-        if any(cur.get("line_decisions", [])):
-            d = copy.deepcopy(cur)
-            d["line_decisions"] = []
-            cands.append(d)
-            ld = cur["line_decisions"]
-            ones = [j for j, x in enumerate(ld) if x]
-            if len(ones) > 1:
-                for keep in (ones[: len(ones) // 2], ones[len(ones) // 2:]):
+            for name in ("cms_args", "hh_args", "hll_args"):
+                if cur.get(name) and sum(1 for n in ("cms_args", "hh_args", "hll_args") if cur.get(n)) > 1:
                     d = copy.deepcopy(cur)
-                    d["line_decisions"] = [1 if j in set(keep) else 0 for j in range(len(ld))]
+                    d.pop(name)
                     cands.append(d)
-        if any(cur.get("decisions", [])):
-            d = copy.deepcopy(cur)
-            d["decisions"] = [0] * len(cur["decisions"])
-            cands.append(d)
-            d = copy.deepcopy(cur)
-            half = len(cur["decisions"]) // 2
-            d["decisions"] = cur["decisions"][:half]
-            cands.append(d)
-        for j, it in enumerate(cur["items"]):
-            if len(it[1]) > 1:
+            for k in list(cur.get("plan", {})):
                 d = copy.deepcopy(cur)
-                d["items"][j][1] = it[1][:1]
+                d["plan"].pop(k)
                 cands.append(d)
-        for d in cands:
-            if tests[0] >= budget:
-                break
-            if fails(d):
-                cur, changed = d, True
-                break
+            if cur.get("delays"):
+                d = copy.deepcopy(cur)
+                d["delays"] = {}
+                cands.append(d)
+            for j, it in enumerate(cur["items"]):
+                if len(it[1]) > 1:
+                    d = copy.deepcopy(cur)
+                    d["items"][j][1] = it[1][:1]
+                    cands.append(d)
+            for d in cands:
+                if fails(d):
+                    cur, changed = d, True
+                    break
+        return cur
+
+    cur = structural(cur)
+    # 1. line pre-emptions / stalls: delta-debug the set of (task, line index) keys
+    ld = dict(cur.get("line_decisions") or {})
+    if ld:
+        def with_ld(keys):
+            d = copy.deepcopy(cur)
+            d["line_decisions"] = {k: ld[k] for k in keys}
+            return d
+
+        if fails(with_ld([])):
+            cur = with_ld([])
+        else:
+            keys = sorted(ld, key=lambda k: (k.split(":")[0], int(k.split(":")[1])))
+            kept = ddmin(keys, lambda ks: fails(with_ld(ks)), max_tests=budget)
+            cand = with_ld(kept)
+            if fails(cand):
+                cur = cand
+            for k, x in list(cur["line_decisions"].items()):
+                if x > 0:
+                    for alt in (-1, 0.05):
+                        if alt == x:
+                            continue
+                        d = copy.deepcopy(cur)
+                        d["line_decisions"][k] = alt
+                        if fails(d):
+                            cur = d
+                            break
+    # 2. scheduler choices: towards "always the first runnable task"
+    dec = list(cur.get("decisions") or [])
+    pos = [j for j, x in enumerate(dec) if x]
+    if pos:
+        def with_dec(keep):
+            d = copy.deepcopy(cur)
+            ks = set(keep)
+            d["decisions"] = [x if j in ks else "" for j, x in enumerate(dec)]
+            return d
+
+        if fails(with_dec([])):
+            cur = with_dec([])
+        else:
+            kept = ddmin(pos, lambda keep: fails(with_dec(keep)), max_tests=budget)
+            cand = with_dec(kept)
+            if fails(cand):
+                cur = cand
+        lst = list(cur["decisions"])
+        while lst and not lst[-1]:
+            lst.pop()
+        cur["decisions"] = lst
+    cur = structural(cur)
     return cur, True
 
 
